@@ -2,6 +2,8 @@
 //! its workers.  Pre-emptive schedules: every baton hand-over, every pre-emption at a hooked lock / slot / map
 //! operation, every lookup completion, cancellation, removal, garbage collection and idle expiry is a draw.
 
+use std::sync::{Arc, Mutex};
+
 use simrt::{AState, ActorId};
 
 use crate::hist::*;
@@ -247,6 +249,32 @@ pub fn drive_c20(h: &mut Hist) -> RunResult2 {
         }
     }
 
+    // "after the manager is dropped ... every handle reports an error instead of a path": holders of a pair's handle
+    // (hook H9) that ask only after the drop is over. They take their handle now and wait behind a gate.
+    let gate: Arc<Mutex<(bool, Vec<std::task::Waker>)>> = Arc::new(Mutex::new((false, Vec::new())));
+    let late: Arc<Mutex<Vec<(Pair, Result<String, String>)>>> = Arc::new(Mutex::new(Vec::new()));
+    let mut late_actors: Vec<ActorId> = Vec::new();
+    if let Some(m) = h.mgr.as_ref() {
+        for pair in pairs_requested.clone() {
+            let (m2, gate2, late2) = (m.clone(), gate.clone(), late.clone());
+            late_actors.push(sim.spawn("late-handle-user", async move {
+                let fut = scion_stack::path::manager::verif_shim::handle_wait(&m2, pair.0, pair.1);
+                drop(m2);
+                Gate(gate2).await;
+                let r = fut.await;
+                late2.lock().unwrap().push((pair, r.map(|p| format!("{:#}", p.fingerprint()))));
+            }));
+        }
+    }
+    // (let them take their handles before anything is dropped)
+    for _ in 0..400 {
+        let r: Vec<ActorId> = sim.runnable().into_iter().filter(|a| late_actors.contains(a)).collect();
+        if r.is_empty() {
+            break;
+        }
+        sim.resume(r[0]);
+    }
+
     // drop: cancel what is left, drop the manager, complete lookups: every worker terminates
     for c in callers.iter_mut() {
         if !sim.is_finished(c.actor) {
@@ -277,6 +305,7 @@ pub fn drive_c20(h: &mut Hist) -> RunResult2 {
         return Err(("panic".into(), format!("actor {name}#{id}: {msg}")));
     }
     sim.probe("oracle-drop");
+    let workers: Vec<ActorId> = (0..sim.actor_count()).filter(|a| sim.actor_name(*a) == "path-set").collect();
     for w in &workers {
         if !sim.is_finished(*w) {
             let st = sim.state(*w);
@@ -286,7 +315,56 @@ pub fn drive_c20(h: &mut Hist) -> RunResult2 {
             ));
         }
     }
+    // the drop is over: the late handle users ask now
+    let ws = {
+        let mut g = gate.lock().unwrap();
+        g.0 = true;
+        std::mem::take(&mut g.1)
+    };
+    for w in ws {
+        w.wake();
+    }
+    for _ in 0..2000 {
+        let r = sim.runnable();
+        if r.is_empty() {
+            break;
+        }
+        let k = if r.len() == 1 { 0 } else { sim.idx(r.len()) };
+        sim.resume(r[k]);
+    }
+    if let Some((id, name, msg)) = sim.take_panic() {
+        return Err(("panic".into(), format!("actor {name}#{id}: {msg}")));
+    }
+    for a in &late_actors {
+        sim.probe("oracle-handle-after-drop");
+        if !sim.is_finished(*a) {
+            return Err(("C20/handle-blocks-after-drop".into(), format!("a wait on a pair's handle started after the manager was dropped and every worker had terminated never returns (actor#{a})")));
+        }
+    }
+    for (pair, r) in late.lock().unwrap().iter() {
+        if let Ok(fp) = r {
+            return Err((
+                "C20/handle-returns-path-after-drop".into(),
+                format!("after the manager was dropped and every worker had terminated, the handle of {}->{} still returned a path ({}) instead of an error", pair.0, pair.1, &fp[..fp.len().min(4)]),
+            ));
+        }
+    }
     Ok(())
+}
+
+/// A one-shot gate the driver opens.
+struct Gate(Arc<Mutex<(bool, Vec<std::task::Waker>)>>);
+
+impl std::future::Future for Gate {
+    type Output = ();
+    fn poll(self: std::pin::Pin<&mut Self>, cx: &mut std::task::Context<'_>) -> std::task::Poll<()> {
+        let mut g = self.0.lock().unwrap();
+        if g.0 {
+            return std::task::Poll::Ready(());
+        }
+        g.1.push(cx.waker().clone());
+        std::task::Poll::Pending
+    }
 }
 
 /// At a point where no actor can run: nobody may be blocked on a lock (deadlock), and no un-cancelled caller may
